@@ -48,7 +48,7 @@ func pickSequence(original *CandidateNode, indices *CandidateNode) (*CandidateNo
 func pickOperator(d *dataTreeNavigator, context Context, expressionNode *ExpressionNode) (Context, error) {
 	log.Debugf("Pick")
 
-	contextIndicesToPick, err := d.GetMatchingNodes(context, expressionNode.RHS)
+	contextIndicesToPick, err := d.GetMatchingNodes(context.ReadOnlyClone(), expressionNode.RHS)
 
 	if err != nil {
 		return Context{}, err
